@@ -81,6 +81,14 @@ def add_hostile(rng, pr, sc_root):
         lambda: (mk("bench_task_2/keep.task"), mk("bench_task_2/ghost.task.9")),
         lambda: mk("multitask12/deep/ghost.task.4"),
         lambda: (mk("a-task-3/keep.task"), mk("xtaskx5")),
+        # run_command / combine outputs whose NAMES use every character class of the grammar
+        lambda: (mk("a/my-cmd.task/x.task.5"), mk("a/my-cmd.task/sub/y.task.6")),
+        lambda: mk("under_score.task/inner.task.3"),
+        lambda: mk("a/b/UPPER-9_x.task/z.task.1"),
+        lambda: mk("-.task/q.task.8"),
+        lambda: mk("_.task/q.task.8"),
+        # unrecorded experiment outputs whose names use '-' / '_' / digits / capitals
+        lambda: (mk("a/my-exp.task.44"), mk("A_b-9.task.45"), mk("7.task.46")),
     ]
     if rows and not isinstance(rows, str):
         r0 = rng.choice(rows)
